@@ -360,7 +360,7 @@ Fixpoint stake_loop1 (dbg : bool) (sl : list (key * wslip)) (amount unlocked las
   end.
 
 (* second loop, over unspent_slips sorted by the amount in the key, descending (stable) *)
-Fixpoint stake_loop2 (dbg : bool) (sl : list (key * wslip)) (required : N)
+Fixpoint stake_loop2 (dbg : bool) (sl : list (key * wslip)) (required lastvalid : N)
          (order : list key) (collected : N) : res (N * list key) :=
   match order with
   | [] => Ok (collected, [])
@@ -368,9 +368,12 @@ Fixpoint stake_loop2 (dbg : bool) (sl : list (key * wslip)) (required : N)
       match mget k sl with
       | None => Panic SITE_SLIP_EXPECT
       | Some x =>
+          (* about to be rebroadcast (or older): skipped *)
+          if ws_bid x <? lastvalid then stake_loop2 dbg sl required lastvalid t collected
+          else
           do c <- add64 dbg SITE_NOLAN_ADD collected (ws_amt x);
           if required <=? c then Ok (c, [k])
-          else do r <- stake_loop2 dbg sl required t c; Ok (fst r, k :: snd r)
+          else do r <- stake_loop2 dbg sl required lastvalid t c; Ok (fst r, k :: snd r)
       end
   end.
 
@@ -399,7 +402,7 @@ Definition create_staking (dbg : bool) (w : wallet) (sorder uorder : list key)
   let '(collected, sel1) := r1 in
   if collected <? amount then
     let required := amount - collected in
-    do r2 <- stake_loop2 dbg (w_slips w) required (sort_by amount_desc uorder) 0;
+    do r2 <- stake_loop2 dbg (w_slips w) required lastvalid (sort_by amount_desc uorder) 0;
     let '(c2, sel2) := r2 in
     if c2 <? required then Ok (w, None) else
     let should_break := Nlen (w_unspent w) =? 1 in
